@@ -98,3 +98,14 @@ Example C03_example_shape :
   map (fun e => (e_up e, e_down e, negb (e_hash e =? 0))) (s_edges ex_st) =
   [ (str_root, id_r, true); (id_r, id_a, true); (id_r, id_b, true); (id_a, id_c, true); (id_b, id_c, true) ].
 Proof. vm_compute. reflexivity. Qed.
+
+(* ---------- the checksum of a point, from the source ----------
+   data.Point.CRC as it is written today — printed by the translator as the list of steps that feed its hash
+   (Anchors/Generated.v, go_data_Point_CRC), with the meaning of the steps stated in Anchors/TiePointCrc.v —
+   computes the model's point_crc for every point: the fields hashed and their order (time, type, key, text, value),
+   the little-endian 64-bit encodings and the node-type exemption are those of the code, so C03_crc_depends_exactly
+   speaks of the checksum the store really uses. *)
+From Verif Require Import MiniGo.Recipe Anchors.Generated Anchors.TiePointCrc.
+Theorem C03_point_crc_from_source : forall p, run_recipe go_data_Point_CRC p = Some (point_crc p).
+Proof. exact go_Point_CRC_is_model. Qed.
+Print Assumptions C03_point_crc_from_source.
